@@ -41,7 +41,7 @@ enum Mix {
 enum Cfg {
     PubSub { mix: Mix, svc: SvcType, size: usize, align: usize, slice: bool, buffer: usize, borrow: usize, loans: usize, overflow: bool, prefill: u8 },
     Event { mix: Mix, svc: SvcType, max_id: usize, lifecycle_events: bool },
-    ReqRes { mix: Mix, svc: SvcType, size: usize, align: usize, slice: bool, max_active: usize, loans: usize, stage: u8 },
+    ReqRes { mix: Mix, svc: SvcType, size: usize, align: usize, slice: bool, max_active: usize, loans: usize, faf: bool, stage: u8 },
     ErrorEnum { name: String },
 }
 
@@ -178,7 +178,7 @@ fn build_world(cfg: &Cfg, c_a: bool, c_b: bool, prefix: &str, name: &str) -> Res
             }
             Ok(World::Ev { a, b, c })
         }
-        Cfg::ReqRes { svc, size, align, slice, max_active, loans, .. } => {
+        Cfg::ReqRes { svc, size, align, slice, max_active, loans, faf, .. } => {
             let c = RrCfg {
                 svc: *svc,
                 size: *size,
@@ -191,6 +191,7 @@ fn build_world(cfg: &Cfg, c_a: bool, c_b: bool, prefix: &str, name: &str) -> Res
                 max_borrowed_responses: 1,
                 max_loaned_responses: 1,
                 max_slice_len: 2,
+                fire_and_forget: *faf,
             };
             let mut a = if c_a { cside::CClient::new(prefix, name, &c) } else { rside::new_client(prefix, name, &c) }
                 .map_err(|o| setup_fail(&format!("open request-response service ({} client side)", who(c_a)), o))?;
@@ -659,15 +660,6 @@ impl Harness for H {
         let seen_r = r.apply(op, fill, true);
         let seen_t = t.apply(op, fill, true);
         let call = c_call(op, slice);
-        if seen_r.len() != seen_t.len() {
-            let lr: Vec<&str> = seen_r.iter().map(|x| x.label).collect();
-            let lt: Vec<&str> = seen_t.iter().map(|x| x.label).collect();
-            return Err(Fail::new(
-                "diff-outcome",
-                format!("{pattern}.{}: {}", op_name(op), call),
-                format!("the two worlds produced different kinds of observations: Rust {lr:?} {:?} vs {mix:?} {lt:?} {:?}", seen_r[0].obs, seen_t[0].obs),
-            ));
-        }
         for (x, y) in seen_r.iter().zip(seen_t.iter()) {
             if x.label != y.label || !agree(&x.obs, &y.obs) {
                 let tag = if x.label.starts_with("loans-still-obtainable") {
@@ -696,7 +688,7 @@ impl Harness for H {
                 return Err(Fail::new(
                     tag,
                     site,
-                    format!("after {op:?} ({}) the Rust/Rust world observed {:?} but the {mix:?} world observed {:?}", x.label, x.obs, y.obs),
+                    format!("after {op:?} ({}) the Rust/Rust world observed {} but the {mix:?} world observed {}", x.label, x.obs.show(), y.obs.show()),
                 ));
             }
             // probes that carry their own expectation
@@ -710,6 +702,15 @@ impl Harness for H {
             if x.label == "result" || x.label == "loan" {
                 s.digest = hash_obs(s.digest, &x.obs);
             }
+        }
+        if seen_r.len() != seen_t.len() {
+            let lr: Vec<&str> = seen_r.iter().map(|x| x.label).collect();
+            let lt: Vec<&str> = seen_t.iter().map(|x| x.label).collect();
+            return Err(Fail::new(
+                "diff-outcome",
+                format!("{pattern}.{}: {}", op_name(op), call),
+                format!("the two worlds produced different kinds of observations: Rust {lr:?} vs {mix:?} {lt:?}"),
+            ));
         }
         s.digest = seqx::hash_of(&(s.digest, format!("{op:?}")));
         Ok(())
@@ -764,26 +765,31 @@ impl Harness for H {
     }
 
     fn max_violations_per_worker(&self) -> usize {
-        64
+        // a deviation that lets the two worlds diverge ends only the execution that met it; the
+        // exploration of the other sequences goes on (violations are grouped by signature)
+        100_000
     }
 }
 
 /// Files/shared memory objects that still carry the prefix (the per-prefix global management
 /// segment of the node layer is persistent by design and not counted).
 fn leftovers(prefix: &str) -> Vec<String> {
-    let mut out = Vec::new();
-    for dir in ["/dev/shm", "/tmp/iceoryx2/services", "/tmp/iceoryx2/nodes", "/tmp/iceoryx2"] {
-        if let Ok(rd) = std::fs::read_dir(dir) {
-            for e in rd.flatten() {
-                let n = e.file_name().to_string_lossy().into_owned();
-                if n.starts_with(prefix) && !n.ends_with(".global_mgmt") {
-                    // strip the hash part: keep the suffix class only
-                    let class = n.rsplit('.').next().unwrap_or("").to_string();
-                    out.push(format!("{dir}/*.{class}"));
+    fn walk(dir: &std::path::Path, prefix: &str, out: &mut Vec<String>, depth: usize) {
+        let Ok(rd) = std::fs::read_dir(dir) else { return };
+        for e in rd.flatten() {
+            let n = e.file_name().to_string_lossy().into_owned();
+            if e.file_type().map(|t| t.is_dir()).unwrap_or(false) {
+                if depth < 3 && (depth > 0 || n == format!("hffi_{}_root", std::process::id())) {
+                    walk(&e.path(), prefix, out, depth + 1);
                 }
+            } else if n.starts_with(prefix) && !n.ends_with(".global_mgmt") {
+                // keep the suffix class only: the rest of the name is a hash
+                out.push(format!("*.{}", n.rsplit('.').next().unwrap_or("")));
             }
         }
     }
+    let mut out = Vec::new();
+    walk(std::path::Path::new("/dev/shm"), prefix, &mut out, 0);
     out.sort();
     out.dedup();
     out
@@ -799,83 +805,107 @@ fn configs(tier: Tier) -> Vec<(Cfg, Plan)> {
         v.push((Cfg::ErrorEnum { name: n.to_string() }, plan(1, 1)));
     }
 
-    let d_ps = if quick { 4 } else { 6 };
-    let d_ev = if quick { 4 } else { 6 };
-    let d_rr = if quick { 4 } else { 5 };
+    // IPC executions cost 20-50 ms (files, shared memory, four nodes), LOCAL ones 1-3 ms: the deep
+    // exploration runs on LOCAL services, IPC services get every configuration class one level
+    // shallower. Both arms of every `match service_type` of the binding are exercised.
+    let (d_ipc, d_loc, d_loc_deep) = if quick { (3usize, 4usize, 5usize) } else { (4, 5, 6) };
+    let (s_ipc, s_loc, s_deep) = if quick { (8u32, 4u32, 8u32) } else { (8, 4, 16) };
+    // level 0: one step shallower, 1: normal, 2: one step deeper (LOCAL only)
+    let dsp = |svc: SvcType, level: u8| -> (usize, u32) {
+        match (svc, level) {
+            (SvcType::Ipc, _) => (d_ipc, s_ipc),
+            (SvcType::Local, 0) => (d_loc - 1, 1),
+            (SvcType::Local, 1) => (d_loc, s_loc),
+            (SvcType::Local, _) => (d_loc_deep, s_deep),
+        }
+    };
 
     // ---- (a) publish-subscribe
     // (size, align): Rust types where they exist, custom type details otherwise
     let typed: [(usize, usize); 6] = [(1, 1), (8, 1), (12, 1), (8, 8), (12, 4), (16, 16)];
     let odd: [(usize, usize); 5] = [(12, 8), (1, 8), (8, 16), (1, 16), (12, 16)];
-    let mut ps = |mix: Mix, svc: SvcType, sa: (usize, usize), slice: bool, buffer: usize, borrow: usize, loans: usize, overflow: bool, prefill: u8, d: usize, split: u32| {
+    let mut ps = |mix: Mix, svc: SvcType, sa: (usize, usize), slice: bool, buffer: usize, borrow: usize, loans: usize, overflow: bool, prefill: u8, level: u8| {
+        let (d, split) = dsp(svc, level);
         v.push((Cfg::PubSub { mix, svc, size: sa.0, align: sa.1, slice, buffer, borrow, loans, overflow, prefill }, plan(d, split)));
     };
     if quick {
-        ps(Mix::CC, SvcType::Ipc, (8, 8), false, 2, 1, 1, true, 0, d_ps, 4);
-        ps(Mix::CC, SvcType::Ipc, (12, 4), true, 1, 1, 2, true, 0, d_ps, 4);
-        ps(Mix::CC, SvcType::Local, (12, 8), false, 2, 2, 2, false, 2, d_ps, 2);
-        ps(Mix::CC, SvcType::Local, (1, 16), true, 2, 1, 1, true, 2, d_ps, 2);
-        ps(Mix::CR, SvcType::Ipc, (16, 16), false, 2, 1, 1, true, 0, d_ps, 4);
-        ps(Mix::RC, SvcType::Ipc, (12, 1), true, 2, 1, 2, false, 2, d_ps, 4);
-        ps(Mix::CR, SvcType::Local, (1, 1), true, 1, 1, 1, true, 2, d_ps, 2);
-        ps(Mix::RC, SvcType::Local, (8, 1), false, 1, 1, 1, true, 0, d_ps, 2);
+        ps(Mix::CC, SvcType::Ipc, (8, 8), false, 2, 1, 1, true, 0, 1);
+        ps(Mix::CC, SvcType::Ipc, (12, 8), true, 1, 1, 2, true, 2, 1);
+        ps(Mix::RC, SvcType::Ipc, (12, 1), true, 2, 1, 2, false, 0, 1);
+        ps(Mix::CC, SvcType::Local, (12, 4), false, 1, 1, 1, true, 2, 2);
+        ps(Mix::CC, SvcType::Local, (1, 16), true, 2, 1, 1, false, 0, 1);
+        ps(Mix::CC, SvcType::Local, (12, 16), false, 2, 2, 2, true, 2, 0);
+        ps(Mix::CR, SvcType::Local, (16, 16), false, 2, 1, 1, true, 2, 1);
+        ps(Mix::CR, SvcType::Local, (1, 1), true, 1, 1, 1, true, 2, 0);
+        ps(Mix::RC, SvcType::Local, (8, 1), false, 2, 1, 1, false, 2, 1);
+        ps(Mix::RC, SvcType::Local, (8, 16), false, 1, 1, 2, true, 0, 0);
     } else {
         for (i, sa) in typed.iter().enumerate() {
             for slice in [false, true] {
                 let mix = [Mix::CC, Mix::CR, Mix::RC][(i + slice as usize) % 3];
-                let svc = if i % 2 == 0 { SvcType::Ipc } else { SvcType::Local };
-                ps(mix, svc, *sa, slice, 1 + i % 2, 1 + (i / 2) % 2, 1 + (i + 1) % 2, i % 3 != 0, if slice { 2 } else { 0 }, d_ps, 4);
+                let svc = if (i + slice as usize) % 3 == 0 { SvcType::Ipc } else { SvcType::Local };
+                ps(mix, svc, *sa, slice, 1 + i % 2, 1 + (i / 2) % 2, 1 + (i + 1) % 2, i % 3 != 0, if slice { 2 } else { 0 }, 1);
             }
         }
         for (i, sa) in odd.iter().enumerate() {
             for slice in [false, true] {
                 let mix = [Mix::CC, Mix::RC, Mix::CR][(i + slice as usize) % 3];
-                let svc = if i % 2 == 1 { SvcType::Ipc } else { SvcType::Local };
-                ps(mix, svc, *sa, slice, 1 + (i + 1) % 2, 1 + i % 2, 1 + i % 2, i % 2 == 0, if slice { 0 } else { 2 }, d_ps, 4);
+                let svc = if (i + slice as usize) % 3 == 1 { SvcType::Ipc } else { SvcType::Local };
+                ps(mix, svc, *sa, slice, 1 + (i + 1) % 2, 1 + i % 2, 1 + i % 2, i % 2 == 0, if slice { 0 } else { 2 }, 1);
             }
         }
-        // every mix on the primary service type with the tightest limits
+        // every mix with the tightest limits: IPC, and one level deeper on LOCAL
         for mix in [Mix::CC, Mix::CR, Mix::RC] {
-            ps(mix, SvcType::Ipc, (8, 8), false, 1, 1, 1, true, 2, d_ps, 4);
-            ps(mix, SvcType::Ipc, (12, 4), true, 2, 1, 2, false, 0, d_ps, 4);
+            ps(mix, SvcType::Ipc, (8, 8), false, 1, 1, 1, true, 2, 1);
+            ps(mix, SvcType::Ipc, (12, 4), true, 2, 1, 2, false, 0, 1);
+            ps(mix, SvcType::Local, (8, 8), false, 1, 1, 1, true, 2, 2);
+            ps(mix, SvcType::Local, (12, 8), true, 2, 1, 1, false, 0, 2);
         }
     }
 
     // ---- (a) event
-    let mut ev = |mix: Mix, svc: SvcType, max_id: usize, lifecycle_events: bool, d: usize, split: u32| {
+    let mut ev = |mix: Mix, svc: SvcType, max_id: usize, lifecycle_events: bool, level: u8| {
+        let (d, split) = dsp(svc, level);
         v.push((Cfg::Event { mix, svc, max_id, lifecycle_events }, plan(d, split)));
     };
     if quick {
-        ev(Mix::CC, SvcType::Ipc, 4, true, d_ev, 2);
-        ev(Mix::CR, SvcType::Ipc, 7, false, d_ev, 2);
-        ev(Mix::RC, SvcType::Local, 4, true, d_ev, 1);
+        ev(Mix::CC, SvcType::Ipc, 4, true, 1);
+        ev(Mix::CR, SvcType::Ipc, 7, false, 1);
+        ev(Mix::CC, SvcType::Local, 4, true, 2);
+        ev(Mix::RC, SvcType::Local, 7, false, 1);
+        ev(Mix::CR, SvcType::Local, 4, true, 1);
     } else {
         for mix in [Mix::CC, Mix::CR, Mix::RC] {
             for svc in [SvcType::Ipc, SvcType::Local] {
                 for le in [false, true] {
-                    ev(mix, svc, if le { 4 } else { 7 }, le, d_ev, 4);
+                    ev(mix, svc, if le { 4 } else { 7 }, le, if svc == SvcType::Local && le { 2 } else { 1 });
                 }
             }
         }
     }
 
     // ---- (a) request-response
-    let mut rr = |mix: Mix, svc: SvcType, sa: (usize, usize), slice: bool, max_active: usize, loans: usize, stage: u8, d: usize, split: u32| {
-        v.push((Cfg::ReqRes { mix, svc, size: sa.0, align: sa.1, slice, max_active, loans, stage }, plan(d, split)));
+    let mut rr = |mix: Mix, svc: SvcType, sa: (usize, usize), slice: bool, max_active: usize, loans: usize, faf: bool, stage: u8, level: u8| {
+        let (d, split) = dsp(svc, level);
+        v.push((Cfg::ReqRes { mix, svc, size: sa.0, align: sa.1, slice, max_active, loans, faf, stage }, plan(d, split)));
     };
     if quick {
-        rr(Mix::CC, SvcType::Ipc, (8, 8), false, 1, 1, 0, d_rr, 4);
-        rr(Mix::CC, SvcType::Local, (12, 4), true, 2, 1, 2, d_rr, 2);
-        rr(Mix::CR, SvcType::Ipc, (1, 1), true, 1, 2, 3, d_rr, 4);
-        rr(Mix::RC, SvcType::Ipc, (16, 16), false, 2, 1, 2, d_rr, 4);
+        rr(Mix::CC, SvcType::Ipc, (8, 8), false, 1, 1, false, 0, 1);
+        rr(Mix::RC, SvcType::Ipc, (16, 16), false, 2, 1, false, 2, 1);
+        rr(Mix::CC, SvcType::Local, (12, 4), true, 2, 1, true, 2, 1);
+        rr(Mix::CC, SvcType::Local, (8, 8), false, 1, 1, true, 1, 1);
+        rr(Mix::CR, SvcType::Local, (1, 1), true, 1, 2, true, 3, 0);
+        rr(Mix::CR, SvcType::Local, (12, 4), false, 1, 1, false, 2, 0);
+        rr(Mix::RC, SvcType::Local, (1, 1), true, 1, 1, false, 3, 0);
+        rr(Mix::RC, SvcType::Local, (16, 16), false, 2, 2, true, 0, 0);
     } else {
         let types: [(usize, usize); 4] = [(1, 1), (8, 8), (12, 4), (16, 16)];
         let mut i = 0usize;
         for mix in [Mix::CC, Mix::CR, Mix::RC] {
             for stage in 0..=3u8 {
                 for slice in [false, true] {
-                    let svc = if i % 3 == 2 { SvcType::Local } else { SvcType::Ipc };
-                    rr(mix, svc, types[i % 4], slice, 1 + i % 2, 1 + (i / 2) % 2, stage, d_rr, 4);
+                    let svc = if i % 3 == 0 { SvcType::Ipc } else { SvcType::Local };
+                    rr(mix, svc, types[i % 4], slice, 1 + i % 2, 1 + (i / 2) % 2, i % 4 == 1, stage, 1);
                     i += 1;
                 }
             }
